@@ -32,7 +32,7 @@ ASSUMPTIONS = [
     "interruption = exception from the user's likelihood or prior",
     "'most recent payload' = last bytes the interrupted run handed to dump_state for this file; before its first checkpoint the file may hold no checkpoint or, intact, the last one of an earlier run (whether that one is still consistent with the file's proposal/config is C14's question)",
 ]
-REQUIRED_COUNTERS = ["configurations", "faults_injected", "files_inspected_after_fault", "resume_from_file_checked", "dump_calls_recorded", "file_probes", "shrink_sequences"]
+REQUIRED_COUNTERS = ["configurations", "continued_under_another_cadence", "faults_injected", "files_inspected_after_fault", "resume_from_file_checked", "dump_calls_recorded", "file_probes", "shrink_sequences"]
 EXHAUSTIVE = True
 CHUNK = 2
 CHUNK_TIMEOUT = 1500
@@ -207,6 +207,32 @@ def faults_case(case, counters, viol, nontrivial):
         n_like, n_prior = probe.n_like_calls, probe.n_prior_calls
     finally:
         rm_tmp(path0)
+    # ---- the run continued from one of its checkpoints under another cadence: iteration numbers are global, so the
+    #      cadence grid of the continued run is the multiples of the *new* cadence
+    ref_dumps = [d for d in DUMPS if d[0] == os.path.realpath(path0)]
+    for e2 in (2, 3):
+        cand = [d for d in ref_dumps[:-1] if d[1] % e2 != 0 and d[1] < T]
+        if not cand or e2 == every:
+            continue
+        start = cand[int(g.integers(len(cand)))]
+        path = tmpfile("cont.h5")
+        try:
+            del DUMPS[:]
+            cfg2 = dict(cfg, ckpt_every=e2)
+            _, a2, _ = recorded.build(cfg2)
+            from .. import smcrun
+
+            res2 = smcrun.run(a2, cfg2["n"], cfg2["sampler"], recorded.sample_kwargs(cfg2, ckpt_path=path, resume_from=start[2]), max_calls=5000)
+            if res2.exc is not None:
+                raise res2.exc
+            T2 = len(res2.history.beta)
+            its2 = [it for (fn, it, b) in DUMPS if fn == os.path.realpath(path)]
+            want2 = [i for i in range(start[1] + 1, T2 + 1) if i % e2 == 0] + [T2]
+            counters["continued_under_another_cadence"] += 1
+            if its2 != want2:
+                viol.append({"mech": "C12/checkpoint-iterations-differ-from-cadence/continued-run", "detail": f"{where}: continued from iteration {start[1]} with cadence {e2} over {T2} iterations: payload iterations {its2}, required {want2}"})
+        finally:
+            rm_tmp(path)
     # ---- a fault at every likelihood and prior call index
     big_cfg = dict(cfg, n=3 * n + 7)
     first_ckpt_call = None
